@@ -78,9 +78,9 @@ def run(chk, args):
     try:
         outs = vlib.run_workers_parallel("w_mixture.py", [{"scenarios": p} for p in split(scen, vlib.NCPU)], work, timeout=3000)
         evs = sorted([e for o in outs for e in o], key=lambda e: e["tid"])
-        if len(evs) != len(scen):
+        if len(evs) != 2 * len(scen):
             raise vlib.Machinery("mixture worker returned %d of %d events" % (len(evs), len(scen)))
-        by = {s["tid"]: s for s in scen}
+        by = {s["tid"] + k: s for s in scen for k in (0, 500000)}
         slim = [{k: v for k, v in e.items() if k not in ("pars", "tb")} for e in evs]
         v = vlib.validate_trace("MixtureTrace", slim, timeout=3000)
         chk.cov["traces_validated_against_impl"] += len(evs)
@@ -101,7 +101,7 @@ def run(chk, args):
         "design: TLC over Mixture (all part values in {0,1,2}^2 for 2-3 parts, both operators, all part shapes); "
         "replay: fixed and generated model expressions (2-4 leaves from 13 leaf models incl. P@S, vector-parameter, "
         "oriented and magnetic ones, permutations, zero-valued components; positive, negative and zero part scales), 1-D, 2-D and 2-D polarised with a magnitude on a random SLD of every part, dispersity in several "
-        "components; MixtureTrace recombines the separately evaluated leaves.")
+        "components; every kernel is called twice (other values, other dispersity meshes the second time); MixtureTrace recombines the separately evaluated leaves.")
     chk.assumptions += [
         "when polarisation is on every SLD-bearing component is given a non-zero magnetic magnitude: a component "
         "with all magnitudes zero is computed by the plain kernel when alone but by the magnetic kernel inside a "
